@@ -195,8 +195,7 @@ func (v *Verifier) internalField(p *Term, key string) *Term {
 func (v *Verifier) applyGlobalHavoc(st *State, h *HeapArr, l modLoc) {
 	if h.IdxSort != "Ptr" || strings.HasPrefix(h.Key, "g_") {
 		if l.kind == "heap" {
-			h.Base = v.Y.fresh(v.D, "hall", h.arraySort())
-			h.Writes = nil
+			h.regionHavoc(v.Y.fresh(v.D, "hall", h.arraySort()), predAll)
 		}
 		return
 	}
@@ -211,14 +210,54 @@ func (v *Verifier) applyGlobalHavoc(st *State, h *HeapArr, l modLoc) {
 		var keep *Term
 		switch l.kind {
 		case "userdata":
-			keep = v.internalField(p, h.Key)
+			keep = tOr(v.internalField(p, h.Key), mk("Bool", "zz_isnew", p))
 		case "under":
 			keep = tNot(mk("Bool", "zz_under", p, l.base))
 		}
 		st.assume(mk("Bool", "forall ((zz_qp Ptr))", withPattern(tImp(keep, tEq(sel, mk(h.ElSort, "select", oldArr, p))), sel)))
 	}
-	h.Base = nb
-	h.Writes = nil
+	kind, base := l.kind, l.base
+	h.regionHavoc(nb, func(a *Term) int {
+		switch kind {
+		case "heap":
+			return 1
+		case "userdata":
+			// locals and objects allocated by the verified function are not user data; fields of module types neither
+			if rootOf(a).Op == "zz_new" {
+				return 0
+			}
+			f := v.internalField(a, h.Key)
+			if f.Op == "true" {
+				return 0
+			}
+			if f.Op == "false" {
+				return 1
+			}
+			return -1
+		case "under":
+			q := a
+			for {
+				if termEq(q, base) {
+					return 1
+				}
+				if q.Op == "zz_fld" || q.Op == "zz_elem" {
+					q = q.Args[0]
+					continue
+				}
+				break
+			}
+			if isCtor(q) && isCtor(rootOf(base)) {
+				if d, ok := provablyDistinct(q, rootOf(base)); ok && d {
+					return 0
+				}
+			}
+			if q.Op == "zz_new" && !isCtor(rootOf(base)) {
+				return -1
+			}
+			return -1
+		}
+		return -1
+	})
 }
 
 func (v *Verifier) customHeap(st *State, key, idxSort, elSort string) *HeapArr {
@@ -260,9 +299,13 @@ func (v *Verifier) load(st *State, addr *Term, t types.Type) *Term {
 		return v.Y.fresh(v.D, "arr", s)
 	}
 	h := v.heapFor(st, s)
+	v.cellFact(addr, t)
 	r := h.read(addr)
 	if r.Op == "select" {
 		v.addTypeFacts(st, r, t)
+		if r.Sort == "Iface" && fromEntryHeap(r) && !mentionsBound(r) {
+			st.assume(tNot(mk("Bool", "zz_isnew", mk("Ptr", v.D.unboxFn("Ptr"), r))))
+		}
 	}
 	return r
 }
@@ -281,8 +324,24 @@ func (v *Verifier) store(st *State, addr *Term, t types.Type, val *Term) {
 		return
 	}
 	h := v.heapFor(st, s)
+	v.cellFact(addr, t)
 	h.write(addr, val)
 	v.recordWrite(st, h.Key, addr)
+}
+
+// cellFact records Go's type safety for one memory cell: the cell at addr holds a value of Go type t
+// (zz_celltype). Two pointers to cells of different Go types can therefore never alias.
+func (v *Verifier) cellFact(addr *Term, t types.Type) {
+	if rootOf(addr).Op == "zz_new" || addr.Op == "zz_nilptr" || mentionsBound(addr) {
+		return
+	}
+	key := "cell:" + addr.String()
+	if v.factSeen[key+"|"+typeStr(t)] {
+		return
+	}
+	v.factSeen[key+"|"+typeStr(t)] = true
+	v.D.declFun("zz_celltype", []string{"Ptr"}, "Int")
+	v.D.facts = append(v.D.facts, tEq(mk("Int", "zz_celltype", addr), v.D.typeID(t)))
 }
 
 // leaves enumerates (address, sort) for every scalar leaf of a value of type t at addr.
@@ -370,7 +429,41 @@ func (v *Verifier) typeFacts(t *Term, ty types.Type) []*Term {
 	return nil
 }
 
+// fromEntryHeap: t is a read whose array bottoms out at a heap component as it was on entry of the verified function
+func fromEntryHeap(t *Term) bool {
+	if t.Op != "select" || len(t.Args) != 2 {
+		return false
+	}
+	a := t.Args[0]
+	for a.Op == "store" {
+		a = a.Args[0]
+	}
+	return strings.HasPrefix(a.Op, "zz_h0_")
+}
+
+func mentionsBound(t *Term) bool {
+	if len(t.Args) == 0 {
+		return strings.HasPrefix(t.Op, "zz_q")
+	}
+	for _, a := range t.Args {
+		if mentionsBound(a) {
+			return true
+		}
+	}
+	return false
+}
+
 func (v *Verifier) addTypeFacts(st *State, t *Term, ty types.Type) {
+	if mentionsBound(t) {
+		return
+	}
+	// A4: pointers found in the entry heap do not point into objects allocated later by this function
+	if t.Sort == "Ptr" && fromEntryHeap(t) {
+		st.assume(tNot(mk("Bool", "zz_isnew", t)))
+	}
+	if t.Sort == "Slice" && fromEntryHeap(t) {
+		st.assume(tNot(mk("Bool", "zz_isnew", slBase(t))))
+	}
 	for _, f := range v.typeFacts(t, ty) {
 		k := f.String()
 		if v.factSeen[k] {
